@@ -175,6 +175,25 @@ CHECKS["C04"] = dict(
     ref="DESIGN.md section 7 C04",
 )
 
+CHECKS["C07"] = dict(
+    module="NodeRecovery",
+    technique="TLA+ model checking of the node's log / replication / flush-job / crash / recovery state machine (TLC) + trace validation of a real in-process node (tsdb engine + WAL partition + local replicator) with directory images after every step and between data commit and log acknowledgement, each recovered, replayed and read back by the real code",
+    text=("NodeRecovery.tla composes the abstractions justified by C01/C05/C06/C09 into one node: append, local "
+          "replication round (validate sequence, write rows, create ids, commit sequence), metadata flush, family "
+          "freeze, data commit (file + sequence in one record), ack callback, crash, recovery. TLC checks over all "
+          "interleavings and crash points (bounded): the acknowledged log position never exceeds the sequence stored "
+          "with the data, no entry is lost, none is applied twice; and shows that FlushedResolves additionally needs "
+          "the memory database to be frozen before the metadata prepare-flush (the code's order violates it: known "
+          "finding). A real node is stepped through seeded histories in which the engine's flush job (metadata, "
+          "index, data) races with replication; the directory is imaged after every step and at the manifest commit "
+          "of the data file; every image is reopened by the real code, replayed, flushed and every entry is read "
+          "back by name. Each observation must equal the model state, all invariants are evaluated on every state."),
+    note=("Trusted: TLC, Json module, the kv seam wrapper and directory copier (memdb temp buffers are not part of an "
+          "image; WAL pages are copied sparsely), the engine setup of the harness. One shard, one family, metric names "
+          "only (tags/series covered by C09/C10)."),
+    ref="DESIGN.md section 7 C07",
+)
+
 NOT_YET = {
 }
 
